@@ -18,7 +18,7 @@ def tt_binop(E, s):
     x, xc = tt_input(E, 'x', s['N1'], s['R1'], s['dtype'], via=s.get('via'))
     y, yc = tt_input(E, 'y', s['N2'], s['R2'], s.get('dtype2', s['dtype']), via=s.get('via'))
     if s.get('alias'):
-        y, yc = x, xc          # x (op) x: the operands alias each other
+        y, yc = (x, xc) if s['alias'] != 'shared_list' else (E.tt.TT(x.cores), xc)          # x (op) x: the operands alias each other (or share their core list)
     ref = _apply(s['op'], dense(E, xc), dense(E, yc))
     z = _apply(s['op'], x, y)
     E.true('is_tt', isinstance(z, E.tt.TT))
